@@ -76,7 +76,7 @@ pub fn build(t: &mut Tape, fuel: i32, opts: Opts, policy: Option<CommentPolicy>,
     let policy = policy.unwrap_or_else(|| *t.pick(&[CommentPolicy::None, CommentPolicy::LineEdges, CommentPolicy::Anywhere, CommentPolicy::LineEdges]));
     let density = 6 + t.below(30);
     let p = layout::insert_comments(&p0, t, policy, density);
-    let style = style.unwrap_or_else(|| *t.pick(&[Style::Pretty, Style::Pretty, Style::Wild, Style::Compact, Style::OneSpace]));
+    let style = style.unwrap_or_else(|| *t.pick(&[Style::Pretty, Style::Pretty, Style::Wild, Style::Compact, Style::OneSpace, Style::Flush]));
     let mut gaps = layout::gen_layout(&p, t, style);
     layout::own_line_fixup(&p, &mut gaps);
     let input = layout::render(&p, &gaps);
